@@ -127,7 +127,7 @@ def floors(tier):
         "strata": ["bare|%s|%s" % (fam, m) for fam in FAMILIES for m in METHODS]
         + ["fit|%s|%s|%s" % (fam, m, d) for fam in FAMILIES for m in METHODS for d in ("density", "counts")]
         + ["order|%s|%s" % (fam, r) for fam in SMOOTH for r in RULES]
-        + ["edges|full", "edges|inner", "edges|uniform", "edges|single-bin", "edges|zero-width-bin", "name|uppercase", "poly0|scalar-return", "fill|fill", "fill|set_bins", "fill|numpy"],
+        + ["edges|full", "edges|inner", "edges|uniform", "edges|single-bin", "edges|zero-width-bin", "name|uppercase", "poly0|scalar-return", "fill|fill", "fill|set_bins", "fill|numpy", "set_data|same-frame-other-inner-edges"],
         "sets": {"n_bins": 12, "family-x-method-x-kind": 200},
         "distinct_nontrivial": 400 * f,
     }
@@ -707,7 +707,13 @@ def gen_case(rng, tier, idx, kind=None, fam=None, method=None, dens=None):
         elif o == "release_parameter":
             ops.append([o, spec["names"][int(rng.integers(0, k))]])
         elif o == "set_data":
-            cur = gen_edges(rng)
+            if len(cur) >= 3 and rng.random() < 0.4:
+                # same number of bins and same range, other inner edges (a re-binned version of the same histogram frame)
+                w = np.exp(rng.normal(0.0, 0.7, size=len(cur) - 1))
+                inner = cur[0] + np.cumsum(w / w.sum() * (cur[-1] - cur[0]))[:-1]
+                cur = [float(cur[0])] + [float(v) for v in inner] + [float(cur[-1])]
+            else:
+                cur = gen_edges(rng)
             ops.append([o, cur, gen_fill(rng, cur, str(rng.choice(["fill", "set_bins", "numpy"])))])
         elif o == "eval_other_parameters":
             ops.append([o, gen_params(rng, fam, cur)])
@@ -1022,8 +1028,11 @@ def run_fit(ctx, case):
             except Exception:
                 ctx.discard("release_parameter raised (parameter was not fixed)")
         elif op[0] == "set_data":
+            st_prev_edges = list(st["edges"])
             st["edges"] = list(op[1])
             st["n_entries"] = n_entries_of(op[2])
+            if len(op[1]) == len(st_prev_edges) and op[1][0] == st_prev_edges[0] and op[1][-1] == st_prev_edges[-1] and list(op[1]) != list(st_prev_edges):
+                ctx.stratum("set_data", "same-frame-other-inner-edges")
             fit.data = make_container(op[1], op[2])
             ctx.stratum("fill", op[2]["mode"])
             ctx.add_to_set("n_bins", len(st["edges"]) - 1)
